@@ -327,7 +327,7 @@ spec:
             final(self).rem().len() <= old(self).rem().len(), old(self).rem().len() - final(self).rem().len() >= 1,
             forall|i: int| 0 <= i < old(self).rem().len() - final(self).rem().len() ==> #[trigger] old(self).rem()[i] != '\n',
             final(self).rem().len() > 0 ==> final(self).rem()[0] == '\n',
-closure 0 `char` ret `b: bool`:
+closure @ `|c| c != '\n'` `char` ret `b: bool`:
         ensures b == (c != '\n')
 @*/
 
